@@ -2,7 +2,7 @@ SPECIFICATION Spec
 CONSTANTS
   NF = 2
   MaxLen = 9
-  Kinds = {"mod", "modeonly", "modemod", "bin", "modebin", "renmode", "rename", "del"}
+  Kinds = {"mod", "modeonly", "modemod", "bin", "modebin", "renmode", "rename", "del", "binx"}
   MaxHunks = 2
   MaxBody = 3
   Preamble = TRUE
